@@ -705,6 +705,11 @@ func (s *Sim) oracleC10(op Op, evs []SIEvent) {
 		if a.State == "Completed" && (real > 0 || pending > 0) {
 			s.violate("C10", "completed-with-work", "", "application %s is Completed with %d real allocations and %d outstanding asks", id, real, pending)
 		}
+		if a.State == "Completing" && real > 0 {
+			// Completing is the state of an application without work (it completes when left alone): one that holds a
+			// bound real allocation is on its way to Completed with that allocation
+			s.violate("C10", "completing-with-allocation", "", "application %s is Completing and holds %d real allocations", id, real)
+		}
 		if a.State == "Running" && len(a.Allocs) == 0 && pending == 0 {
 			s.violate("C10", "idle-not-completing", "", "application %s is Running with no allocations and no outstanding asks (should be Completing)", id)
 		}
